@@ -351,7 +351,7 @@ func c12NewInst(cfg InstCfg) *u.MapPollard {
 // ---------------------------------------------------------------------------
 // queries
 
-var c12Kinds = []string{"roots", "stump", "numleaves", "treerows", "prove", "verify", "leafpos", "leafposs", "gethash", "missing", "write"}
+var c12Kinds = []string{"roots", "stump", "numleaves", "treerows", "prove", "verify", "leafpos", "leafposs", "gethash", "missing", "write", "verifypartial"}
 
 type c12Query struct {
 	Kind    string
@@ -364,8 +364,8 @@ type c12Query struct {
 
 func (q *c12Query) String() string {
 	switch q.Kind {
-	case "verify-remember":
-		return fmt.Sprintf("verify-remember(%s, %s)", hashesStr(q.Hashes), proofStr(q.Proof))
+	case "verify-remember", "verifypartial":
+		return fmt.Sprintf("%s(%s, %s)", q.Kind, hashesStr(q.Hashes), proofStr(q.Proof))
 	case "prove", "leafpos", "leafposs":
 		return fmt.Sprintf("%s(%s)", q.Kind, hashesStr(q.Hashes))
 	case "verify":
@@ -433,6 +433,15 @@ func c12MkQuery(rng *rand.Rand, p *c12Plan, kind string, j int) *c12Query {
 		if q.Hashes == nil {
 			q.Kind = "roots"
 		}
+	case "verifypartial":
+		// VerifyPartialProof completed with the true hashes of every canonical proof position
+		// the forest may lack; on a full forest (which lacks none) it also remembers
+		q.Hashes = pickLive(rng, r, 1+rng.Intn(3))
+		if q.Hashes == nil {
+			q.Kind = "roots"
+			break
+		}
+		q.Proof, _ = r.F.ProofForHashes(q.Hashes)
 	case "verify", "verify-remember":
 		q.Hashes = pickLive(rng, r, 1+rng.Intn(4))
 		if q.Hashes == nil {
@@ -508,6 +517,23 @@ func c12Exec(mp *u.MapPollard, cfg InstCfg, q *c12Query) string {
 			return "err"
 		}
 		return "ok"
+	case "verifypartial":
+		// a full forest stores every proof position, so no proof hashes are supplied
+		// (and remembering is neutral); a partial one is asked without remembering
+		// and is given the whole canonical proof only if it reports all of it missing
+		full := cfg.Kind == "mapfull"
+		var ph []Hash
+		if !full {
+			miss := mp.GetMissingPositions(cloneU64(q.Proof.Targets))
+			if len(miss) != len(q.Proof.Proof) {
+				return "skipped" // some positions are stored: which hashes to supply depends on the state
+			}
+			ph = cloneHashes(q.Proof.Proof)
+		}
+		if err := mp.VerifyPartialProof(cloneU64(q.Proof.Targets), cloneHashes(q.Hashes), ph, full); err != nil {
+			return "err"
+		}
+		return "ok"
 	case "leafpos":
 		pos, ok := mp.GetLeafPosition(q.Hashes[0])
 		if !ok {
@@ -571,6 +597,22 @@ func c12Legal(p *c12Plan, cfg InstCfg, k int, q *c12Query, out string) bool {
 			return out == want
 		}
 		return out == "err" || out == want // partial forest, a requested leaf is not remembered
+	case "verifypartial":
+		if out == "skipped" {
+			return true
+		}
+		for _, t := range q.Proof.Targets {
+			if nd := r.F.Nodes[t]; nd == nil || nd.Leaf < 0 {
+				return true // targets drawn from another state hold no leaf here: not judged
+			}
+		}
+		if ok, _ := claimTrue(r.F, claim{Hashes: q.Hashes, Targets: q.Proof.Targets}); ok {
+			if full {
+				return out == "ok"
+			}
+			return true // partial: acceptance also depends on which hashes were supplied for this state
+		}
+		return out == "err"
 	case "verify", "verify-remember":
 		for _, t := range q.Proof.Targets {
 			if t > uint64(1)<<(r.F.H+1)-2 {
@@ -781,7 +823,7 @@ func c12Run(c *core.Ctx, s c12Scenario) {
 	}
 	var pauseInfo *pauseResult
 	if s.Pause == nil {
-		c12Free(r, rb)
+		pauseInfo = c12Free(r, rb)
 	} else {
 		ps := *s.Pause
 		if ps.Step < 0 {
@@ -829,12 +871,20 @@ func c12Run(c *core.Ctx, s c12Scenario) {
 		c.Violate("goroutine", "panic", core.PanicTrigger([]byte(pn)), pn)
 	}
 	if pauseInfo != nil && pauseInfo.deadlock != "" {
-		if pauseInfo.deadlockInLib {
+		switch {
+		case pauseInfo.spinning != "":
+			c.Violate("join", "call-does-not-return", pauseInfo.spinning, pauseInfo.deadlock)
+			c.AbandonProcess() // the spinning goroutines stay; this worker is done
+		case pauseInfo.deadlockInLib:
 			c.Violate("join", "deadlock", pauseInfo.site, pauseInfo.deadlock)
-		} else {
-			c.Inconclusive("goroutines did not finish within the watchdog, not parked in the library's lock: " + pauseInfo.site)
+			c.AbandonProcess()
+		default:
+			c.Inconclusive("goroutines did not finish within the watchdog, neither parked in the library's lock nor executing library code: " + pauseInfo.site)
 		}
 		return
+	}
+	if pauseInfo != nil && s.Pause == nil {
+		pauseInfo = nil // free-running mode finished normally
 	}
 	sort.Slice(r.evs, func(a, b int) bool { return r.evs[a].Call < r.evs[b].Call })
 	var steps []c12Ev
@@ -976,7 +1026,7 @@ func c12Run(c *core.Ctx, s c12Scenario) {
 
 func queryMethod(kind string) string {
 	return map[string]string{"roots": "GetRoots", "stump": "GetStump", "numleaves": "GetNumLeaves", "treerows": "GetTreeRows", "prove": "Prove", "verify": "Verify",
-		"verify-remember": "Verify(remember)", "leafpos": "GetLeafPosition", "leafposs": "GetLeafHashPositions", "gethash": "GetHash", "missing": "GetMissingPositions", "write": "Write"}[kind]
+		"verify-remember": "Verify(remember)", "verifypartial": "VerifyPartialProof", "leafpos": "GetLeafPosition", "leafposs": "GetLeafHashPositions", "gethash": "GetHash", "missing": "GetMissingPositions", "write": "Write"}[kind]
 }
 
 func stepsStr(p *c12Plan, steps []c12Ev) string {
@@ -1035,7 +1085,7 @@ func c12Porcupine(p *c12Plan, cfg InstCfg, evs []c12Ev) (porcupine.CheckResult, 
 // ---------------------------------------------------------------------------
 // free-running mode
 
-func c12Free(r *c12Run_, rb []byte) {
+func c12Free(r *c12Run_, rb []byte) *pauseResult {
 	var wg sync.WaitGroup
 	var done atomic.Bool
 	n := len(r.p.refs)
@@ -1074,7 +1124,34 @@ func c12Free(r *c12Run_, rb []byte) {
 		}
 		done.Store(true)
 	}()
-	wg.Wait()
+	res := &pauseResult{site: "free-running"}
+	joinWatchdog(&wg, res)
+	if res.deadlock == "" {
+		return nil
+	}
+	return res
+}
+
+// joinWatchdog waits for the goroutines of a run; after 60 s it records a
+// goroutine dump and classifies it: parked in the library's RWMutex = deadlock;
+// still executing library code = a call that does not return.
+func joinWatchdog(wg *sync.WaitGroup, res *pauseResult) {
+	joined := make(chan struct{})
+	go func() { wg.Wait(); close(joined) }()
+	select {
+	case <-joined:
+	case <-time.After(60 * time.Second):
+		buf := make([]byte, 1<<20)
+		k := runtime.Stack(buf, true)
+		dump := string(buf[:k])
+		res.deadlock = "goroutines still running after 60 s:\n" + trimLines(dump, 120)
+		res.deadlockInLib = strings.Contains(dump, "sync.(*RWMutex)") && strings.Contains(dump, "github.com/utreexo/utreexo.(*MapPollard)")
+		for _, g := range strings.Split(dump, "\n\n") {
+			if (strings.Contains(g, "[running]") || strings.Contains(g, "[runnable]")) && strings.Contains(g, "github.com/utreexo/utreexo.") {
+				res.spinning = core.PanicTrigger([]byte(g))
+			}
+		}
+	}
 }
 
 // ---------------------------------------------------------------------------
@@ -1088,6 +1165,7 @@ type pauseResult struct {
 	releaseAt     int64
 	deadlock      string
 	deadlockInLib bool
+	spinning      string // innermost library frame of a goroutine that is still executing
 }
 
 func c12Paused(r *c12Run_, rb []byte, ps c12Pause) *pauseResult {
@@ -1192,16 +1270,8 @@ func c12Paused(r *c12Run_, rb []byte, ps c12Pause) *pauseResult {
 	}
 	close(release)
 	// join under a watchdog
-	joined := make(chan struct{})
-	go func() { wg.Wait(); close(joined) }()
-	select {
-	case <-joined:
-	case <-time.After(60 * time.Second):
-		buf := make([]byte, 1<<20)
-		k := runtime.Stack(buf, true)
-		dump := string(buf[:k])
-		res.deadlock = "goroutines still running 60 s after the release:\n" + trimLines(dump, 120)
-		res.deadlockInLib = strings.Contains(dump, "sync.(*RWMutex)") && strings.Contains(dump, "github.com/utreexo/utreexo.(*MapPollard)")
+	joinWatchdog(&wg, res)
+	if res.deadlock != "" {
 		return res
 	}
 	// quiescent round: every query kind against the settled state
